@@ -80,6 +80,9 @@ func genConc(seed uint64, prop string) *Scenario {
 				sc.Steps = append(sc.Steps, Step{T: "s-elect", Sess: s, Elec: &id2})
 			}
 		}
+		if r.IntN(3) == 0 {
+			sc.Steps = append(sc.Steps, Step{T: "s-leave", Sess: s, A: r.IntN(2)})
+		}
 	}
 	for i := 0; i < r.IntN(3); i++ {
 		gs := &GetSpec{AFT: int32(aftTypeNums[r.IntN(len(aftTypeNums))])}
@@ -117,7 +120,7 @@ func runConc(e *env) {
 	for i := range e.sc.Steps {
 		st := &e.sc.Steps[i]
 		switch st.T {
-		case "s-elect", "s-ops":
+		case "s-elect", "s-ops", "s-leave":
 			p := plans[st.Sess]
 			if p == nil {
 				p = &sessPlan{n: st.Sess}
@@ -136,6 +139,8 @@ func runConc(e *env) {
 	var problems []string
 	var announced [][2]uint64
 	flushRan := false
+	cancelled := false
+	var maybeAnnounced [][2]uint64
 	sentPayload := map[Key][]proto.Message{}
 	// sessions: negotiate concurrently too (same parameters, so consistency holds)
 	// Sessions negotiate one after the other: a session that is connected but has not
@@ -171,6 +176,25 @@ func runConc(e *env) {
 					s.elec = id
 					s.announced = append(s.announced, id)
 					s.mc.Send(&spb.ModifyRequest{ElectionId: uint128(id)})
+				case "s-leave":
+					// read what is there, then go away while the others carry on
+					simrt.Sleep("leave-delay", 20*time.Millisecond)
+					for {
+						r, err, ok := s.mc.TryRecv()
+						if !ok || err != nil {
+							break
+						}
+						s.pendingResp = append(s.pendingResp, r)
+					}
+					if st.A == 0 {
+						s.mc.CloseSend()
+					} else {
+						s.mc.Stream().Cancel()
+						s.dead = true
+					}
+					s.closed = true
+					e.probe("session left while others were active")
+					return
 				case "s-ops":
 					ops := st.ops()
 					if len(ops) == 0 {
@@ -272,8 +296,11 @@ func runConc(e *env) {
 		}
 		rs, term := e.drain(s)
 		s.pendingResp = append(s.pendingResp, rs...)
-		if term != nil {
+		if term != nil && !s.closed {
 			problems = append(problems, fmt.Sprintf("session %d: RPC ended: %v", sn, term))
+		}
+		if s.closed && s.dead {
+			cancelled = true
 		}
 	}
 	for _, sn := range order {
@@ -289,11 +316,17 @@ func runConc(e *env) {
 		}
 		announced = append(announced, s.announced[:n]...)
 		if n < len(s.announced) {
-			problems = append(problems, fmt.Sprintf("session %d: %d of %d announcements never answered", sn, len(s.announced)-n, len(s.announced)))
+			if s.closed && s.dead {
+				// cancelled with announcements in flight: they may or may not have been processed
+				maybeAnnounced = append(maybeAnnounced, s.announced[n:]...)
+			} else {
+				problems = append(problems, fmt.Sprintf("session %d: %d of %d announcements never answered", sn, len(s.announced)-n, len(s.announced)))
+			}
 		}
 	}
 	foreign := false
 	e.checkpoint(func() {
+		_ = maybeAnnounced
 		if len(problems) > 0 {
 			e.report("C11", "concurrent-client-problem", "a concurrent RPC failed or returned garbage", fmt.Sprint(problems), false)
 		}
@@ -305,14 +338,22 @@ func runConc(e *env) {
 					mx = a
 				}
 			}
-			e.maxElec = mx
 			id, master := e.srv.VerifElection()
+			// announcements of a cancelled session that were in flight may count too
+			if id != nil {
+				for _, a := range maybeAnnounced {
+					if less128(mx, a) && a == [2]uint64{id.High, id.Low} {
+						mx = a
+					}
+				}
+			}
+			e.maxElec = mx
 			if id == nil || id.High != mx[0] || id.Low != mx[1] {
 				e.report("C11", "quiescent-election", "reported election id is not the maximum announced", fmt.Sprintf("maximum announced %v, server %v", mx, id), false)
 			} else {
 				vs, ok := e.srv.VerifSessions()[master]
 				everMax := false
-				if ok {
+				{
 					// the primary must be a session that announced the maximum at some point
 					for _, sn := range order {
 						for _, st := range plans[sn].steps {
@@ -322,7 +363,13 @@ func runConc(e *env) {
 						}
 					}
 				}
-				if !ok || !everMax {
+				departed := false
+				for _, sn := range order {
+					if plans[sn].s.closed {
+						departed = true
+					}
+				}
+				if (!ok && !departed) || !everMax {
 					e.report("C11", "quiescent-election", "the primary is not a live session that announced the maximum", fmt.Sprintf("master %q %+v", master, vs), false)
 				}
 			}
@@ -360,6 +407,10 @@ func runConc(e *env) {
 	})
 	if flushRan {
 		e.probe("a Flush overlapped the modifications")
+		return
+	}
+	if cancelled {
+		e.probe("state comparison skipped: a session was cancelled with operations in flight")
 		return
 	}
 	if foreign {
